@@ -121,6 +121,10 @@ func (s *sys) apply(ev string) applied {
 				return s.handler().HandlePrecommitProofs(ctx, msg).String()
 			})
 		}
+	case "CANCEL":
+		k, _ := strconv.Atoi(parts[1])
+		s.cancelAt = k
+		a.result = "armed"
 	case "RP":
 		a.result = s.applyReplay(parts[1])
 	case "FE":
